@@ -87,7 +87,7 @@ def run(path, extra=(), timeout=900, rlimit=None):
 
 
 VERIFICATION_MSGS = (
-    'postcondition not satisfied', 'precondition not satisfied', 'assertion failed', 'invariant not satisfied',
+    'postcondition not satisfied', 'precondition not satisfied', 'precondition not met', 'assertion failed', 'invariant not satisfied',
     'loop invariant not satisfied', 'possible arithmetic underflow/overflow', 'possible division by zero',
     'decreases not satisfied', 'index out of bounds', 'unreachable', 'recommendation not met', 'loop ensures not satisfied',
     'possible bit shift', 'assertion not satisfied', 'failed', 'could not prove termination', 'rlimit', 'resource limit',
